@@ -1,12 +1,14 @@
 import Driver.Journal
 import Driver.Config
 import Driver.Tx
+import Driver.Kv
 open Driver
 
 structure DState where
   comp : CompTable := []
   loaded : Fjall.Bytes := []
   tx : TxSession := {}
+  kv : Fjall.Mvcc.Kv := {}
 
 def step (s : DState) (line : String) : DState × String :=
   let ws := words line
@@ -18,7 +20,10 @@ def step (s : DState) (line : String) : DState × String :=
     | none =>
       match txCmd s.tx ws with
       | some (t, out) => ({ s with tx := t }, out)
-      | none => (s, "bad-op")
+      | none =>
+        match kvCmd s.kv ws with
+        | some (k, out) => ({ s with kv := k }, out)
+        | none => (s, "bad-op")
 
 partial def loop (h : IO.FS.Stream) (out : IO.FS.Stream) (s : DState) : IO Unit := do
   let line ← h.getLine
